@@ -48,7 +48,21 @@ class Origins:
         out: Set[str] = set()
         if depth > 6:
             return out
+        # names bound by a comprehension inside e refer to that comprehension's iterable only (the same name may be the variable of
+        # several comprehensions of the function)
+        bound_iter: Dict[int, ast.AST] = {}
+        for c in ast.walk(e):
+            if isinstance(c, (ast.ListComp, ast.GeneratorExp, ast.SetComp, ast.DictComp)):
+                for g in c.generators:
+                    names_ = {x.id for x in ast.walk(g.target) if isinstance(x, ast.Name)}
+                    for x in ast.walk(c):
+                        if isinstance(x, ast.Name) and x.id in names_ and isinstance(x.ctx, ast.Load):
+                            bound_iter[id(x)] = g.iter
         for n in ast.walk(e):
+            if isinstance(n, ast.Name) and id(n) in bound_iter:
+                if n.id not in seen:
+                    out |= self.of_expr(bound_iter[id(n)], fn, depth + 1, seen | {n.id})
+                continue
             if isinstance(n, ast.Call) and isinstance(n.func, ast.Attribute):
                 recv = norm(n.func.value)
                 if n.func.attr == "derivative" and recv == "self._potential":
@@ -71,6 +85,11 @@ class Origins:
                     if isinstance(a, (ast.For, ast.comprehension)) and any(isinstance(t, ast.Name) and t.id == n.id for t in ast.walk(a.target)):
                         # a loop / comprehension variable takes the origins of what is iterated
                         out |= self.of_expr(a.iter, fn, depth + 1, seen2)
+                    if isinstance(a, ast.Call) and isinstance(a.func, ast.Attribute) and a.func.attr in ("append", "extend", "insert", "add") \
+                            and isinstance(a.func.value, ast.Name) and a.func.value.id == n.id:
+                        # a local collection takes the origins of what is put into it
+                        for arg_ in a.args:
+                            out |= self.of_expr(arg_, fn, depth + 1, seen2)
                     if isinstance(a, ast.Assign) and isinstance(a.targets[0], ast.Tuple):
                         for i, t in enumerate(a.targets[0].elts):
                             if isinstance(t, ast.Name) and t.id == n.id:
